@@ -47,6 +47,21 @@ def exhaustive_inputs(opname):
         alpha = [ON(0, 60, 100), OFF(0, 60), WT(0, 6), WT(1, 0), KS(0, "G")]
         ls = [list(t) for k in range(0, 5) for t in itertools.product(alpha, repeat=k)]
         return [(l, p) for l in ls for p in (0, 6, 7, 12, 13)]
+    if opname in ("quantise", "qnl", "cutoff"):
+        # every multiset of up to 4 absolute note messages over 2 channels x 1 pitch x 4 ticks, in every insertion order
+        alpha = [ON(c, 60, 100, t) for c in (0, 1) for t in (0, 5, 6, 13)] + [OFF(c, 60, t) for c in (0, 1) for t in (5, 6, 13, 20)]
+        ls = [list(t) for k in range(0, 4) for t in itertools.product(alpha, repeat=k)]
+        if opname == "quantise":
+            return [(l, st, None) for l in ls for st in ([6], [4, 6])]
+        if opname == "qnl":
+            return [(l, vals, 24, dne, False) for l in ls for vals in ([6], [4, 8]) for dne in (False, True)]
+        return [(l, 6, 4) for l in ls]
+    if opname == "to_abs" or opname == "rel_abs_rel":
+        alpha = [ON(0, 60, 100), OFF(0, 60), ON(1, 61, 90), WT(0, 6), WT(1, 0), TS(0, 3, 4), KS(0, "G")]
+        return [list(t) for k in range(0, 5) for t in itertools.product(alpha, repeat=k)]
+    if opname == "set_channel":
+        alpha = [ON(0, 60, 100), OFF(1, 60), WT(0, 6), TS(2, 3, 4), KS(0, "G")]
+        return [(list(t), c) for k in range(0, 5) for t in itertools.product(alpha, repeat=k) for c in (0, 3)]
     return []
 
 
